@@ -1,8 +1,9 @@
 package p9
 
 // C06 harness: exactly one tagged reply per request, contiguous frames, no
-// unsolicited reply, concurrent service.  Real Server.Handle over net.Pipe (and
-// over the fragmenting writer) with the gated backend of vhloop_backend_test.go.
+// unsolicited reply, concurrent service (unrelated fids, two connections), send
+// errors.  Real Server.Handle over pipes (and over the fragmenting writer) with
+// the gated backend of vhloop_backend_test.go.
 
 import (
 	"os"
@@ -12,7 +13,10 @@ import (
 func vh06Corpus() []vhloopScn {
 	var l []vhloopScn
 	add := func(name string, nfid int, steps ...vhloopStep) {
-		l = append(l, vhloopScn{Name: name, NFid: nfid, Steps: steps})
+		l = append(l, vhloopScn{Name: name, NConn: 1, NFid: nfid, Steps: steps})
+	}
+	add2 := func(name string, nfid int, steps ...vhloopStep) {
+		l = append(l, vhloopScn{Name: name, NConn: 2, NFid: nfid, Steps: steps})
 	}
 	// flush shapes (shared with C14): own tag, idle tag, answered tag
 	add("flush-own", 1, vhloopSend(vhloopFlush(5, 5)))
@@ -20,8 +24,10 @@ func vh06Corpus() []vhloopScn {
 	add("flush-answered", 1, vhloopSend(vhloopRead(1, -1)), vhloopSend(vhloopFlush(2, 1)))
 	add("flush-mutual", 1, vhloopSend(vhloopFlush(2, 3), vhloopFlush(3, 2)))
 	add("flush-gated", 1, vhloopSend(vhloopRead(1, 1)), vhloopSend(vhloopFlush(2, 1)), vhloopRel(1, 0))
-	// duplicate active tag: dropped; then the tag is free again
-	add("dup-active", 1, vhloopSend(vhloopRead(1, 1)), vhloopSend(vhloopRead(1, -1)), vhloopRel(1, 0), vhloopSend(vhloopRead(1, -1)))
+	// duplicate active tag: dropped; then the tag is free again (also with the boundary tags)
+	for _, t := range []int{1, 0, 65534, 65535} {
+		add(vhloopName("dup-active-tag%d", t), 1, vhloopSend(vhloopRead(t, 1)), vhloopSend(vhloopRead(t, -1)), vhloopRel(1, 0), vhloopSend(vhloopRead(t, -1)))
+	}
 	// immediate re-use, many times
 	add("reuse", 1, vhloopSend(vhloopRead(7, -1)), vhloopSend(vhloopRead(7, -1)), vhloopSend(vhloopRead(7, -1)), vhloopSend(vhloopRead(7, -1)),
 		vhloopSend(vhloopFlush(7, 7)), vhloopSend(vhloopRead(7, -1)))
@@ -31,18 +37,92 @@ func vh06Corpus() []vhloopScn {
 	// backend error and panic
 	add("errors", 1, vhloopSend(vhloopFrame{K: "read", Tag: 1, Gate: -1, Mode: 1}), vhloopSend(vhloopFrame{K: "read", Tag: 2, Gate: -1, Mode: 2}),
 		vhloopSend(vhloopRead(3, 1)), vhloopRel(1, 2), vhloopSend(vhloopRead(4, 2)), vhloopRel(2, 1))
-	// a request blocked in the backend (ReadAt, then Close) delays nobody else
-	add("blocked-read", 1, vhloopSend(vhloopRead(1, 1)), vhloopSend(vhloopRead(2, -1)), vhloopSend(vhloopRead(3, -1)), vhloopRel(1, 0))
-	add("blocked-close", 3, vhloopSend(vhloopClunk(1, 1, true)), vhloopSend(vhloopRead(2, -1)), vhloopSend(vhloopClunk(3, 2, false)),
-		vhloopSend(vhloopRead(4, 2)), vhloopSend(vhloopFlush(5, 1)), vhloopRel(2, 0), vhloopRel(vhloopCloseBase+1, 0))
+
+	// --- concurrency on one connection: a request blocked in a backend method delays no unrelated request ---
+	unrelated := func(c, base int) []vhloopStep { // traffic on other fids, each answered before the next is sent
+		return []vhloopStep{
+			vhloopSendC(c, vhloopReadF(base, 0, -1)),
+			vhloopSendC(c, vhloopOnFile("getattr", base+1, 2, 0, false)),
+			vhloopSendC(c, vhloopFlush(base+2, 777)),
+			vhloopSendC(c, vhloopFrame{K: "badtype", Tag: base + 3}),
+			vhloopSendC(c, vhloopOnFile("clone", base+4, 0, 0, false)),
+		}
+	}
+	blockers := []struct {
+		name string
+		f    vhloopFrame
+	}{
+		{"read", vhloopReadF(1, 1, 1)},
+		{"getattr", vhloopOnFile("getattr", 1, 1, 1, true)},
+		{"walk", vhloopOnFile("clone", 1, 1, 1, true)},
+		{"close-clunk", vhloopClunkF(1, 1, 1, true)},
+		{"close-replaced-fid", vhloopAttachOver(1, 1, 1, true)},
+	}
+	for _, b := range blockers {
+		steps := []vhloopStep{vhloopSend(b.f)}
+		steps = append(steps, unrelated(0, 10)...)
+		steps = append(steps, vhloopSend(vhloopFlush(2, 1)), vhloopSend(vhloopClunkF(20, 3, 3, false)), vhloopRel(b.f.Gate, 0), vhloopSend(vhloopReadF(1, 0, -1)))
+		add("blocked-"+b.name, 4, steps...)
+	}
+	// SetAttr holds the write lock of the (shared root) path node: read-class operations on that node (Tread, and Tclunk,
+	// which looks at the fid's pending xattr under the node's read lock) ARE ordered after it; everything else is not
+	{
+		sa := vhloopOnFile("setattr", 1, 1, 1, true)
+		add("blocked-setattr", 4, vhloopSend(sa), vhloopSend(vhloopFlush(10, 777)), vhloopSend(vhloopFrame{K: "badtype", Tag: 11}), vhloopSend(vhloopFrame{K: "rmsg", Tag: 12}),
+			vhloopSend(vhloopBehind(vhloopClunkF(13, 3, 3, false), sa.Gate)), vhloopSend(vhloopBehind(vhloopReadF(14, 0, -1), sa.Gate)), vhloopSend(vhloopFlush(15, 14)),
+			vhloopSend(vhloopFlush(16, 888)), vhloopRel(sa.Gate, 0))
+	}
+	// a writer queued behind a reader that sits in the backend: both finish after the release (lock hand-over)
+	for _, k := range []string{"clone", "getattr", "read"} {
+		var rd vhloopFrame
+		if k == "read" {
+			rd = vhloopReadF(1, 1, 1)
+		} else {
+			rd = vhloopOnFile(k, 1, 1, 1, true)
+		}
+		add("writer-behind-"+k, 3, vhloopSend(rd), vhloopSend(vhloopBehind(vhloopOnFile("setattr", 2, 2, 2, false), rd.Gate)),
+			vhloopSend(vhloopFlush(10, 777)), vhloopSend(vhloopFlush(11, 777)), vhloopSend(vhloopFrame{K: "badtype", Tag: 12}), vhloopSend(vhloopFlush(13, 777)),
+			vhloopRel(rd.Gate, 0), vhloopSend(vhloopReadF(3, 0, -1)))
+	}
+
+	// --- two connections on one server ---
+	for _, b := range blockers {
+		// the blocker on connection 0 (fid 1 = file 1), unrelated traffic on both, same tag numbers on both
+		steps := []vhloopStep{vhloopSendC(0, b.f)}
+		steps = append(steps, unrelated(1, 1)...)
+		steps = append(steps, unrelated(0, 10)...)
+		steps = append(steps, vhloopSendC(1, vhloopFlush(9, 1)), vhloopRel(b.f.Gate, 0), vhloopSendC(1, vhloopReadF(1, 0, -1)), vhloopSendC(0, vhloopReadF(1, 0, -1)))
+		add2("twoconn-blocked-"+b.name, 4, steps...)
+	}
+	{
+		// connection 1 goes away while its stop() is blocked in the Close of one of its files (file 4 = conn 1 fid 0)
+		steps := []vhloopStep{{Op: "hangup", Conn: 1, Gate: vhloopCloseBase + 4}}
+		steps = append(steps, unrelated(0, 10)...)
+		steps = append(steps, vhloopSendC(0, vhloopClunkF(20, 3, 3, false)), vhloopRel(vhloopCloseBase+4, 0), vhloopSendC(0, vhloopReadF(1, 0, -1)))
+		add2("twoconn-blocked-close-stop", 4, steps...)
+		// a hang-up with requests still running: they are answered, then Handle returns
+		add2("twoconn-hangup-busy", 2, vhloopSendC(1, vhloopRead(1, 1)), vhloopSendC(1, vhloopFlush(2, 1)), vhloopStep{Op: "hangup", Conn: 1},
+			vhloopSendC(0, vhloopRead(1, -1)), vhloopRel(1, 0), vhloopSendC(0, vhloopRead(1, -1)))
+	}
+
+	// --- send errors: the peer stops reading; the server logs, carries on, and returns after EOF ---
+	add("peer-stops-reading", 2, vhloopSend(vhloopRead(1, 1)), vhloopSend(vhloopRead(2, -1)), vhloopStep{Op: "break"},
+		vhloopSend(vhloopRead(3, -1)), vhloopSend(vhloopRead(4, 2)), vhloopSend(vhloopFlush(5, 4)), vhloopSend(vhloopFrame{K: "badtype", Tag: 6}),
+		vhloopRel(1, 0), vhloopRel(2, 0), vhloopSend(vhloopRead(7, 3)), vhloopRel(3, 0))
+	add2("peer-stops-reading-other-conn", 2, vhloopSendC(1, vhloopRead(1, 1)), vhloopStep{Op: "break", Conn: 1}, vhloopRel(1, 0), vhloopSendC(1, vhloopRead(2, -1)),
+		vhloopSendC(0, vhloopRead(1, -1)), vhloopSendC(0, vhloopRead(2, 2)), vhloopSendC(0, vhloopFlush(3, 2)), vhloopRel(2, 0))
+	l = append(l, vhloopScn{Name: "peer-stops-reading-frag", Frag: true, NConn: 1, NFid: 1, Steps: []vhloopStep{
+		vhloopSend(vhloopRead(1, 1), vhloopRead(2, 1), vhloopRead(3, 1), vhloopRead(4, 1)), vhloopRel(1, 0), vhloopStep{Op: "break"},
+		vhloopSend(vhloopRead(5, -1)), vhloopSend(vhloopRead(6, 2)), vhloopRel(2, 0)}})
+
 	// batches of 2..4 gated requests, every release order, frames sent one by one and back to back
 	for n := 2; n <= 4; n++ {
 		for pi, p := range vhloopPerms(n) {
 			l = append(l, vhloopBatch(vhloopName("batch%d-perm%d", n, pi), n, p, false, pi%2 == 0))
 		}
 	}
-	// bursts: many requests sent back to back, answered concurrently (large replies, flushes in between),
-	// over the plain pipe and over the fragmenting writer: torn frames show up here
+	// bursts: many requests sent back to back, answered concurrently (large replies, flushes and undecodable
+	// frames in between), over the plain pipe and over the fragmenting writer: torn frames show up here
 	for _, n := range []int{8, 32} {
 		for _, frag := range []bool{false, true} {
 			var fs []vhloopFrame
@@ -51,8 +131,14 @@ func vh06Corpus() []vhloopScn {
 				if i%4 == 3 {
 					fs = append(fs, vhloopFlush(31000+i, 30000+i-1))
 				}
+				if i%4 == 1 {
+					fs = append(fs, vhloopFrame{K: "badtype", Tag: 32000 + i})
+				}
+				if i%8 == 6 {
+					fs = append(fs, vhloopFrame{K: "short", Tag: 33000 + i})
+				}
 			}
-			l = append(l, vhloopScn{Name: vhloopName("burst%d-frag%v", n, frag), Frag: frag, NFid: 1,
+			l = append(l, vhloopScn{Name: vhloopName("burst%d-frag%v", n, frag), Frag: frag, NConn: 1, NFid: 1,
 				Steps: []vhloopStep{vhloopSend(vhloopRead(1, 1)), vhloopSend(fs...), vhloopSend(fs...), vhloopRel(1, 0)}})
 		}
 	}
@@ -64,9 +150,7 @@ func TestVerifC06(t *testing.T) {
 	defer out.Close()
 	if p := os.Getenv("VERIF_REPLAY"); p != "" {
 		if scn, ok := vhloopLoadReplay(p); ok {
-			if !vhloopEmit(out, vhloopRun("C06", scn)) {
-				return
-			}
+			vhloopEmit(out, vhloopRun("C06", scn))
 			return
 		}
 	}
@@ -76,12 +160,15 @@ func TestVerifC06(t *testing.T) {
 			return
 		}
 	}
-	// larger batches, random release order; the biggest ones once over the fragmenting writer
+	// larger batches, random release order; once over the fragmenting writer
 	sizes := []int{8, 16, 32, 64}
 	for _, n := range sizes {
-		reps := 2
+		reps := 1
 		if vhThorough() {
 			reps = 8
+		}
+		if n <= 16 {
+			reps++
 		}
 		for k := 0; k < reps; k++ {
 			if !vhloopEmit(out, vhloopRunB("C06", vhloopBatch(vhloopName("batch%d-rand%d", n, k), n, r.Perm(n), k == 1 && n <= 16, k%2 == 0))) {
@@ -89,7 +176,7 @@ func TestVerifC06(t *testing.T) {
 			}
 		}
 	}
-	nrand := 60
+	nrand := 40
 	if vhThorough() {
 		nrand = 600
 	}
